@@ -123,11 +123,14 @@ func (wtr *JSONWtr) container(lvl int) node.Node {
 		}
 		if wtr.Pretty {
 			wtr._out.WriteString("\n")
-			end := 2 * lvl
-			if end > len(padding) {
-				panic("too deep nesting")
+			// two blanks per level, however deep
+			for end := 2 * lvl; end > 0; end -= len(padding) {
+				if end > len(padding) {
+					wtr._out.WriteString(padding)
+				} else {
+					wtr._out.WriteString(padding[0:end])
+				}
 			}
-			wtr._out.WriteString(padding[0:end])
 		}
 		return
 	}
